@@ -52,14 +52,14 @@ CHECKS['C02'] = dict(
     title='Evaluation returns the value of the stored piecewise polynomial',
     level='exploration',
     technique='bounded-exhaustive enumeration of (grid, window, order, coefficient pattern, abscissa) on the real evaluation code with an exact rational scalar against explicit-power evaluation',
-    level_text='Every window of 4 grid families up to 5 (thorough 7) points, orders 0..3 (0..4), unit/zero/generic coefficient vectors and a probe set containing every grid point, interior points of every grid interval, points just outside and far outside; exact equality with the midpoint polynomial computed independently. Exhaustive within those bounds.',
+    level_text='Every window of 4 grid families up to 5 (thorough 7) points, orders 0..3 (0..4), unit/zero/generic coefficient vectors and a probe set containing every grid point, interior points of every grid interval, points just outside and far outside; exact equality with the midpoint polynomial computed independently; plus supports of 17..66 (thorough ..129) grid points on both sides of powers of two (size-dependent search strategies). Exhaustive within those bounds.',
     level_note='Trusted: GMP, the 20-line explicit-power oracle in checks/c02_eval.cpp. x outside the probe set is covered by the degree argument (more than order+1 probes per interval) and by probing both sides of every comparison threshold; NaN abscissae are outside the statement.',
     units=std_units('checks/c02_eval.cpp'),
     rule='cases = (grid family, n, window, order, coefficient pattern); each evaluates the spline at every probe point (counter point_evaluations). Non-trivial = coefficient vector non-zero.',
     bounds=dict(quick='4 grid families x n=2..5 x all windows x orders 0..3 x (all unit vectors, zero, 2 generic)',
                 thorough='n=2..7, orders 0..4'),
     guards=dict(classes=['x:interior', 'x:shared-gridpoint', 'x:front', 'x:back', 'x:left-outside', 'x:right-outside', 'x:interval-free',
-                         'win:interval:sub', 'win:interval:whole', 'win:point:sub', 'win:empty:sub'],
+                         'win:interval:sub', 'win:interval:whole', 'win:point:sub', 'win:empty:sub', 'win:large'],
                 counters=['point_evaluations']),
     assumptions=[A_SHAPE, A_POLY],
 )
@@ -100,7 +100,7 @@ CHECKS['C03'] = dict(
     level='model_checking',
     engine='E1 input enumerator + breadth-first search over in-place update histories',
     technique='bounded-exhaustive enumeration of operand pairs/collections plus explicit-state breadth-first search over all histories of in-place updates of one spline (exact-value state key), every step executed on the real code and compared with an exact reference',
-    level_text='(a) Every ordered window pair on 5-point grids (all 13 Allen relations, empty, point-like), order pairs 0..2 (thorough 0..3 and (4,0),(0,4)), unit/zero/generic coefficient patterns, for + - * += -=, scalar forms over 6 scalars, unary minus, same-object forms, cross-order assignment and linearCombination of 1..3 splines: the result must denote exactly the reference sum/difference/product/multiple. (b) All histories of += -= = (copy, move, lower order) *= /= on one target up to depth 4 (thorough 6) explored breadth-first with exact-state deduplication; the reference is stepped in parallel and compared after every transition.',
+    level_text='(a) Every ordered window pair on 5-point grids (all 13 Allen relations, empty, point-like), order pairs 0..2 (thorough 0..3 and (4,0),(0,4)), unit/zero/generic coefficient patterns, for + - * += -=, scalar forms over 6 scalars, unary minus, same-object forms, cross-order assignment and linearCombination of 1..3 splines (and, on 34- and 67-point grids, long supports and collections of 8..64 splines): the result must denote exactly the reference sum/difference/product/multiple. (b) All histories of += -= = (copy, move, lower order) *= /= on one target up to depth 4 (thorough 6) explored breadth-first with exact-state deduplication; the reference is stepped in parallel and compared after every transition.',
     level_note='Trusted: GMP, engine/refpp.h. States of the history search are exact (window, coefficients) values; every transition is an execution of the real operators, so traces_validated_against_impl equals transitions. Coefficient values outside the patterns: A-poly; window placements on larger grids: A-shape.',
     units=lambda tier: [unit('e1', 'checks/c03_arith.cpp', 'exact', args=['--part', 'e1']),
                         unit('e1-chk', 'checks/c03_arith.cpp', 'chk', args=['--part', 'e1']),
@@ -110,7 +110,7 @@ CHECKS['C03'] = dict(
                 thorough='4 grid families n=5 plus one 6-point grid; orders 0..3 plus (4,0),(0,4); all lincomb triples; histories depth 6 (order 2) and 5 (order 1)'),
     guards=dict(classes=['add:intervalxinterval:' + r for r in ALLEN13] + ['mul:intervalxinterval:' + r for r in ALLEN13] +
                 ['iadd:intervalxinterval:before', 'isub:pointxinterval:during', 'add:emptyxinterval:n/a', 'scalar:a/c', 'scalar:c*a', 'self:a*a', 'self:a-=a', 'assign',
-                 'lincomb:k1', 'lincomb:k2', 'lincomb:k3', 'history:+=src0', 'history:=move(src1)', 'history:-=src4', 'history:/=3'],
+                 'lincomb:k1', 'lincomb:k2', 'lincomb:k3', 'large:binary', 'large:lincomb', 'history:+=src0', 'history:=move(src1)', 'history:-=src4', 'history:/=3'],
                 counters=['states', 'transitions']),
     mc_note='states = distinct exact target values reached (counted per worker partition below the split level, so a state reached by two workers is counted twice); transitions = operator applications executed and compared.',
     assumptions=[A_SHAPE, A_POLY],
@@ -145,14 +145,14 @@ CHECKS['C06'] = dict(
     title='Bilinear forms equal the exact integral of the two transformed splines',
     level='exploration',
     technique='bounded-exhaustive enumeration of operator pairs (template instantiations), order pairs, window pairs, factor placements and coefficient patterns on the real BilinearForm with an exact rational scalar against the exact integral computed in the reference model',
-    level_text='For every ordered pair from a list of 4 (thorough 8) operator expressions, every order pair 0..2 (0..3), every ordered window pair of a 5-point grid, every placement of the spline-valued factor and unit x unit / generic coefficient patterns, the value must equal the integral of ref_apply(O1,a)*ref_apply(O2,b) over the common intervals exactly; swapping the (operator, spline) pairs must not change it; ScalarProduct equals the identity form; equal grids in distinct objects give the same value.',
+    level_text='For every ordered pair from a list of 4 (thorough 8) operator expressions, every order pair 0..2 (0..3), every ordered window pair of a 5-point grid, every placement of the spline-valued factor and unit x unit / generic coefficient patterns, the value must equal the integral of ref_apply(O1,a)*ref_apply(O2,b) over the common intervals exactly; swapping the (operator, spline) pairs must not change it; ScalarProduct equals the identity form; equal grids in distinct objects give the same value; three pairs of operators of the same C++ type with different state (scalars, factor splines) on every order pair and window pair.',
     level_note='Trusted: GMP, engine/refpp.h (antiderivative evaluated at the interval end points; shares nothing with the Horner-in-h^2 kernel). Operator pairs and orders outside the enumerated matrix are not instantiated.',
     units=c06_units,
     rule='cases = (grid, operator pair, order pair, factor window, window pair, coefficient-pattern pair, grid object variant). Non-trivial = exact integral non-zero.',
     bounds=dict(quick='operators {I, X1, Dx1, V*Dx1}^2, orders 0..2, nonuni5', thorough='8 operators squared, orders 0..3, nonuni5 and far5'),
     guards=dict(classes=['common:intervalxinterval:' + r for r in ['equal', 'overlaps', 'overlapped-by', 'starts', 'started-by', 'finishes', 'finished-by', 'contains', 'during']] +
                 ['nocommon:intervalxinterval:' + r for r in ['before', 'after', 'meets', 'met-by']] +
-                ['factor:interval:ends-inside-grid', 'factor:interval:starts-inside-grid', 'factor:point:ends-inside-grid:starts-inside-grid', 'factor:empty:ends-inside-grid', 'factor:interval']),
+                ['same-type-different-state', 'factor:interval:ends-inside-grid', 'factor:interval:starts-inside-grid', 'factor:point:ends-inside-grid:starts-inside-grid', 'factor:empty:ends-inside-grid', 'factor:interval']),
     assumptions=[A_SHAPE, A_POLY],
 )
 
@@ -417,6 +417,15 @@ def c19_units(tier):
                       ('c06', 'checks/c06_bilinear.cpp'), ('c07', 'checks/c07_linear.cpp'), ('c08', 'checks/c08_grids.cpp'), ('c11', 'checks/c11_validation.cpp'),
                       ('c12', 'checks/c12_interp.cpp'), ('c13', 'checks/c13_support.cpp'), ('c15', 'checks/c15_predicates.cpp')]:
         us.append(unit(name + '-strict', src, 'exact', flags=F, kind='compile_is_verdict'))
+    # lazily evaluated archetype (operators return proxies that refer to their operands, like GMP's own mpq_class)
+    for name, src in [('c01', 'checks/c01_generator.cpp'), ('c02', 'checks/c02_eval.cpp'), ('c03', 'checks/c03_arith.cpp'), ('c04', 'checks/c04_primitive.cpp'),
+                      ('c07', 'checks/c07_linear.cpp')] + ([('c06', 'checks/c06_bilinear.cpp'), ('c12', 'checks/c12_interp.cpp'), ('c08', 'checks/c08_grids.cpp')] if th else []):
+        us.append(unit(name + '-lazy', src, 'exact', flags=['-DVF_LAZY'], kind='compile_is_verdict'))
+    for u in c05_units(tier, 'exact', 'C19', [('k1', 12)]):
+        u['name'] = 'c05-' + u['name'] + '-lazy'
+        u['flags'] = ['-DVF_LAZY']
+        u['kind'] = 'compile_is_verdict'
+        us.append(u)
     us.append(unit('c10-pool-strict', 'checks/c10_pool.cpp', 'exact', shards=1, flags=F, args=['--prop', 'C10', '--levels', '4' if th else '3', '--levels2', '3'], kind='compile_is_verdict'))
     for u in c05_units(tier, 'exact', 'C19', [('k1', 12), ('fixed', 2)] + ([('k2', 160)] if th else [])):
         u['name'] = 'c05-' + u['name'] + '-strict'
@@ -431,12 +440,12 @@ CHECKS['C19'] = dict(
     level='exploration',
     engine='instantiation matrix + E1/E2/E3 on the strict archetype',
     technique='enumeration of configurations: every public class template is explicitly instantiated and every function/operator template is called with a strict scalar archetype (GMP rational offering exactly the documented operations, explicit construction from int only); compile failure is the violation; the bounded-exhaustive exact checks of the other properties are then re-run on that archetype',
-    level_text='vf::Q offers default/copy construction, explicit Q(int), + - * / and compound forms, unary minus and the six comparisons - nothing else (no implicit conversions, no <cmath>, no numeric_limits, no streaming). All core templates for orders 0..4 are explicitly instantiated with it (all non-template members), and the harnesses of C01-C08, C10-C13, C15 (incl. 214 expression trees with scalars of type Q and int; thorough 10302 trees) are compiled and run with it: every result must still equal the exact reference.',
+    level_text='vf::Q offers default/copy construction, explicit Q(int), + - * / and compound forms, unary minus and the six comparisons - nothing else (no implicit conversions, no <cmath>, no numeric_limits, no streaming). vf::LQ offers the same through lazily evaluated operators (proxies referring to their operands, the scheme of GMP mpq_class) with liveness tracking, so that results kept beyond the full expression are detected. All core templates for orders 0..4 are explicitly instantiated with it (all non-template members), and the harnesses of C01-C08, C10-C13, C15 (incl. 214 expression trees with scalars of type Q and int; thorough 10302 trees) are compiled and run with it: every result must still equal the exact reference.',
     level_note='The deciding step of the compile half is the compiler\'s type check over an enumerated instantiation set (bounded enumeration of configurations, not of behaviours). Paths in if-constexpr branches not selected by the enumerated orders are not type-checked. Trusted: g++ 12.',
     units=c19_units,
     report_uninit=True,
     rule='cases are those of the listed harnesses, executed with the strict archetype as scalar type; non-trivial as defined there. counters.units_compiled = translation units that type-checked against the archetype.',
-    bounds=dict(quick='22 class-template instantiations; 12 harnesses + 14 expression-tree units on vf::Q', thorough='adds 160 units with all two-node expression trees'),
+    bounds=dict(quick='22 class-template instantiations; 12 harnesses + 14 expression-tree units on vf::Q; 5 harnesses + 12 expression-tree units on the lazy archetype vf::LQ', thorough='adds 160 units with all two-node expression trees'),
     guards=dict(classes=['tree:with-factor', 'mul:intervalxinterval:overlaps', 'common:intervalxinterval:overlaps', 'solved:default:whole', 'valid:functions:interior-repeat', 'Grid:invalid']),
     assumptions=['scalar types satisfying the documented requirements behave like the archetype as far as overload resolution is concerned'],
 )
@@ -456,7 +465,7 @@ CHECKS['C20'] = dict(
     level='exploration',
     engine='E1 input enumerator on the real examples under sanitizers',
     technique='bounded enumeration of admissible inputs of the real example translation units (examples/*.cpp compiled unmodified) built with AddressSanitizer, UndefinedBehaviorSanitizer, libstdc++ debug mode and Eigen assertions; oracle = no report/assertion/signal plus the physical invariants the statement lists, within 1e-8',
-    level_text='Diffusion: grids of 2,3,4,6,9 points (uniform and warped), every piecewise-constant coefficient over {1/3,1,2} for n<=4 and patterned ones above, three boundary-value pairs: both end values attained, invariance under scaling D by 1/4, 3, 1/3 at 17 probe points, straight line for constant D; sub-window coefficients refused or solved. Spline potential: grids of 11..22, 41 (and 5) points x potentials {0, x^2/2, cosh-1} x three construction routes: at most as many eigenpairs as basis functions, eigenvalues (sorted) shifted by c for c in {1,-5/2}. Harmonic oscillator and hydrogen: n+1/2 and -1/n^2 within the test-suite tolerances. Everything also in a plain -O2 build.',
+    level_text='Diffusion: grids of 2,3,4,6,9 points (uniform and warped), every piecewise-constant coefficient over {1/3,1,2} for n<=4 and patterned ones above, three boundary-value pairs: both end values attained, invariance under scaling D by 1/4, 3, 1/3, 2^-60, 3*2^40 at 17 probe points, straight line for constant D; sub-window coefficients refused or solved. Spline potential: grids of 11..22, 41 (and 5) points x potentials {0, x^2/2, cosh-1} x three construction routes: at most as many eigenpairs as basis functions, eigenvalues (sorted) shifted by c for c in {1,-5/2}. Harmonic oscillator and hydrogen: n+1/2 and -1/n^2 within the test-suite tolerances. Everything also in a plain -O2 build.',
     level_note='Numerical oracles are tolerance-based (1e-8 relative; observed deviations are below 1e-13) and the input families are small. Interior values of the diffusion solution for discontinuous coefficients are not compared with the exact piecewise-linear solution (the C^9 basis cannot represent the kink; DESIGN.md 5). Trusted: sanitizer runtimes, Eigen 3.4.',
     units=c20_units,
     deadline=dict(quick=900, thorough=2700),
